@@ -150,23 +150,62 @@ Qed.
 
 (* ------------------------------------------------------------------ RemoveAllInstancesOf *)
 
+Lemma firstn_S_snoc (l : list Z) k : k < length l -> firstn (S k) l = firstn k l ++ [nth k l 0%Z].
+Proof.
+  intros H. apply (list_ext _ _ 0%Z); autorewrite with nthdb; cbn [length]; [lia|].
+  intros i Hi. autorewrite with nthdb. cbn [length]. dif; fin.
+Qed.
+
+(* the readFrom / writeTo loop after the first k items have been read *)
+Lemma rai_loop_spec ow q x k : inv ow sq q -> k <= cnt q ->
+  let s := fold_left (rai_step x) (seq 0 k) (q, 0) in
+  inv ow sq (fst s) /\ cnt (fst s) = cnt q /\ snd s <= k /\
+  firstn (snd s) (abs (fst s)) = filter (fun y => negb (Z.eqb y x)) (firstn k (abs q)) /\
+  skipn k (abs (fst s)) = skipn k (abs q).
+Proof.
+  intros I. induction k as [|k IH]; intros Hk.
+  - cbn [seq fold_left fst snd firstn filter]. split; [assumption|]. repeat split; lia.
+  - rewrite seq_S, fold_left_app. cbn [fold_left Nat.add].
+    destruct (IH ltac:(lia)) as (I1 & C1 & W1 & F1 & S1).
+    destruct (fold_left (rai_step x) (seq 0 k) (q, 0)) as [g w]. cbn [fst snd] in *.
+    assert (V : getu g k = nth k (abs q) 0%Z).
+    { rewrite <- (nth_abs g k 0%Z) by lia.
+      replace (nth k (abs g) 0%Z) with (nth 0 (skipn k (abs g)) 0%Z) by (rewrite nth_skipn'; f_equal; lia).
+      rewrite S1, nth_skipn'. f_equal. lia. }
+    rewrite (firstn_S_snoc (abs q) k) by (rewrite abs_length; lia). rewrite filter_app. cbn [filter].
+    assert (S2 : skipn (S k) (abs g) = skipn (S k) (abs q)).
+    { replace (S k) with (k + 1) by lia.
+      rewrite <- (skipn_skipn' 1 k (abs g)), <- (skipn_skipn' 1 k (abs q)), S1. reflexivity. }
+    unfold rai_step. rewrite V. destruct (Z.eqb (nth k (abs q) 0%Z) x) eqn:E; cbn [negb fst snd].
+    + rewrite app_nil_r. split; [assumption|]. repeat split; (assumption || lia).
+    + destruct (w <? k) eqn:E2; cbn [fst snd].
+      * split; [apply inv_setu; [assumption|lia]|]. split; [rewrite cnt_setu; exact C1|]. split; [lia|].
+        rewrite (abs_setu ow sq) by (assumption || lia). split.
+        -- rewrite <- F1. apply (list_ext _ _ 0%Z); autorewrite with nthdb; cbn [length]; [lia|].
+           intros i Hi. autorewrite with nthdb. cbn [length]. dif; fin.
+        -- rewrite <- S2. apply (list_ext _ _ 0%Z); autorewrite with nthdb; [reflexivity|].
+           intros i Hi. autorewrite with nthdb. dif; fin.
+      * split; [assumption|]. split; [assumption|]. split; [lia|]. split; [|assumption].
+        assert (w = k) by lia. subst w. replace (k + 1) with (S k) by lia.
+        rewrite (firstn_S_snoc (abs g) k) by (rewrite abs_length; lia). rewrite F1. f_equal. f_equal.
+        rewrite nth_abs by lia. exact V.
+Qed.
+
 Lemma remove_all_instances_spec ow q x : inv ow sq q ->
   let r := remove_all_instances ow q x in
   inv ow sq (fst r) /\ abs (fst r) = filter (fun y => negb (Z.eqb y x)) (abs q) /\
   snd r = length (filter (fun y => Z.eqb y x) (abs q)).
 Proof.
-  intros I r. subst r. unfold remove_all_instances. cbv zeta. cbn [fst snd].
-  set (keep := filter (fun y => negb (Z.eqb y x)) (abs q)).
-  assert (HL : length (filter (fun y => Z.eqb y x) (abs q)) + length keep = cnt q).
-  { subst keep. rewrite <- (abs_length q). apply (filter_split_length (fun y => Z.eqb y x)). }
-  destruct (write_from_spec ow keep q 0 I ltac:(lia)) as (J1&J2&_).
-  pose proof (write_from_abs ow keep q 0 I ltac:(lia)) as J3.
-  set (q2 := write_from q 0 keep) in *.
-  destruct (iter_remove_tail sq ow (cnt q - length keep) q2 J1 ltac:(lia)) as (K1&K2&_).
-  rewrite abs_length. split; [assumption|]. split; [|lia].
-  rewrite K2, J3. cbn [firstn app Nat.add].
-  replace (cnt q2 - (cnt q - length keep)) with (length keep + 0) by lia.
-  rewrite firstn_app_2. cbn [firstn]. apply app_nil_r.
+  intros I r. subst r. unfold remove_all_instances.
+  destruct (rai_loop_spec ow q x (cnt q) I (le_n _)) as (I1 & C1 & W1 & F1 & _).
+  destruct (fold_left (rai_step x) (seq 0 (cnt q)) (q, 0)) as [g w]. cbn [fst snd] in *.
+  rewrite (firstn_abs_all q (cnt q)) in F1 by lia.
+  assert (HL : length (filter (fun y => Z.eqb y x) (abs q)) + w = cnt q).
+  { pose proof (filter_split_length (fun y => Z.eqb y x) (abs q)) as H. rewrite abs_length in H.
+    rewrite <- F1 in H. rewrite firstn_length', abs_length in H. lia. }
+  destruct (iter_remove_tail sq ow (cnt q - w) g I1 ltac:(lia)) as (K1&K2&_).
+  split; [assumption|]. split; [|lia].
+  rewrite K2, <- F1. f_equal. lia.
 Qed.
 
 (* ------------------------------------------------------------------ Normalize *)
